@@ -116,6 +116,50 @@ def judge_one(v, e, nr, nw):
     return out, notes
 
 
+def async_agreement(e):
+    """C06's view of the same observations: the tokio / async-std protocol functions must agree with the BLOCKING protocol
+    function on the same input (whatever that one does) - values via re-encoded bytes, error kinds, bytes consumed, write bytes."""
+    probs = []
+    pairs = (('tokio', 'proto'), ('astd', 'proto'), ('tokio_enum', 'enum'), ('astd_enum', 'enum'))
+    for lib, sync in pairs:
+        a, b = e.get(lib), e.get(sync) or {}
+        if a is None or not b:
+            continue
+        for o in a.get('outs') or []:
+            if kind_of(o) != kind_of(b):
+                probs.append((f'{lib}-vs-blocking-result', f'blocking {sync}: {kind_of(b)}; {lib}: {kind_of(o)} (schedule #{o.get("first")})'))
+            elif b.get('result') == 'ok' and (o.get('out') != b.get('out') or ('consumed' in o and 'consumed' in b and o.get('consumed') != b.get('consumed'))):
+                probs.append((f'{lib}-vs-blocking-value', f'blocking {sync} re-encodes to {str(b.get("out"))[:80]} (consumed {b.get("consumed")}); {lib}: {str(o.get("out"))[:80]} (consumed {o.get("consumed")}, schedule #{o.get("first")})'))
+    lift = ((e.get('via') or {}).get('lift') or {})
+    if lift.get('result') == 'ok' and lift.get('lifted_out') is not None:
+        for lib in ('wtokio', 'wastd'):
+            a = e.get(lib)
+            if a is None:
+                continue
+            for o in a.get('outs') or []:
+                if o.get('result') != 'ok' or o.get('out') != lift.get('lifted_out'):
+                    probs.append((f'{lib}-vs-blocking-bytes', f'blocking write_protocol: {str(lift.get("lifted_out"))[:80]}; {lib}: {kind_of(o)} {str(o.get("out"))[:80]}'))
+    seen, out = set(), []
+    for p in probs:
+        if p[0] not in seen:
+            seen.add(p[0])
+            out.append(p)
+    return out
+
+
+def protocol_rows(tier, rng, k):
+    """rows + metadata for the protocol-parameterised API over canonical login vectors (shared with C06)"""
+    corpus, sv, vectors, stats = V.build(tier, k=k, envs=LOGIN_ENVS)
+    vectors = SCH.uniq(vectors)
+    rows, meta = [], {}
+    for v in vectors:
+        frame = bytes.fromhex(v['hex'])
+        rs, ws = schedules(len(frame), rng, tier, SCH.marks_of(v))
+        rows.append([v['id'], 'P.rt', v['object'], v['version'], frame.hex(), ';'.join(rs), ';'.join(ws), len(rs) - 1])
+        meta[v['id']] = (v, len(rs), len(ws))
+    return rows, meta
+
+
 def schedules(n, rng, tier, marks):
     if n == 0:
         return ['w'], ['w']
